@@ -1306,6 +1306,81 @@ theorem rowDistB_sound (slack : Rat) (row : List XRat) (h : rowDistB slack row =
         rw [← hq]
         split_ifs at hsum with hneg <;> simp only [decide_eq_true_eq] at hsum <;> constructor <;> linarith
 
+/-! ## POMDP constructors -/
+
+theorem accepted_obs_are_distributions (h : allValidateFirst = true) (k : Kind) (s : St) (o : Tab3)
+    (hacc : (step k s (.setO3D o)).2 = false) :
+    RowsOK (rowP k.obs) (step k s (.setO3D o)).1.Om ∧ (step k s (.setO3D o)).1.T = s.T ∧
+    (step k s (.setO3D o)).1.disc = s.disc := by
+  obtain ⟨_, _, _, ho3, _⟩ := vf_unpack h
+  simp only [step, prog, ho3, exec_setter_true] at hacc ⊢
+  by_cases hc' : okO3D k.obs s o = true
+  · have hc : check3D s.S s.A s.O o = true := by
+      simp only [okO3D, Bool.and_eq_true] at hc'; exact hc'.1
+    simp only [hc', if_true, and_true]
+    apply rowsOK_mk3
+    intro a ha x hx
+    have := (check3D_iff _ _ _ _).1 hc x hx a ha
+    have hst := stored_row k.obs _ this
+    simpa [rowOf, List.map_map, Function.comp_def] using hst
+  · simp [hc'] at hacc
+
+/-- `POMDP::Model(o, of, params…)` / `POMDP::SparseModel(o, of, params…)`: a valid MDP part plus an accepted observation
+    table is a valid POMDP; a rejected table means no object -/
+theorem pomdp3D_valid (h : allValidateFirst = true) (k : Kind) (base : St) (O : Nat) (o : Tab3) (s : St)
+    (hv : Valid ⟨k.base, k.base⟩ base) (hc : pomdp3D k base O o = some s) : Valid k s := by
+  unfold pomdp3D at hc
+  set s0 : St := { base with O := O, Om := mk3 base.A base.S O (fun _ _ _ => .fin 0) } with hs0
+  have e : exec (prog k (.setO3D o)) s0 = step k s0 (.setO3D o) := rfl
+  rw [e] at hc
+  by_cases hacc : (step k s0 (.setO3D o)).2 = true
+  · simp [hacc] at hc
+  · have hacc' : (step k s0 (.setO3D o)).2 = false := by simpa using hacc
+    simp only [hacc', Bool.false_eq_true, if_false, Option.some.injEq] at hc
+    subst hc
+    obtain ⟨h1, h2, h3⟩ := accepted_obs_are_distributions h k s0 o hacc'
+    exact ⟨by rw [h3]; exact hv.disc, by rw [h2]; exact hv.T, h1⟩
+
+/-- **conversion of a whole POMDP** (`POMDP::Model(const PM&)`, `POMDP::SparseModel(const PM&)` over either MDP class,
+    from ANY source model): if it accepts, the result is a valid POMDP in the target representation -/
+theorem pomdp_copy_valid (kb ko : Rep) (m : Src) (O : Nat) (om : Tab3) (s : St)
+    (hn : discNanSafe = true ∨ m.disc ≠ .nan)
+    (h : (copyBase kb m).bind (fun b => copyObs ko b O om) = some s) : Valid ⟨kb, ko⟩ s := by
+  cases hb : copyBase kb m with
+  | none => simp [hb] at h
+  | some b =>
+      simp only [hb, Option.bind] at h
+      have hbase : DiscOK b.disc ∧ RowsOK RowS b.T := by
+        cases kb with
+        | dense =>
+            obtain ⟨_, _, hd, hg, _, _, hrows⟩ := copyDense_preserves m b hb
+            refine ⟨?_, hrows⟩
+            rw [hd]
+            by_cases hnan : m.disc = .nan
+            · rcases hn with hs | hne
+              · simp only [discNanSafe, Bool.and_eq_true] at hs
+                rw [hnan] at hg; simp_all
+              · exact absurd hnan hne
+            · exact discountOKfinite_sound _ (discGuard_ok .dense).1 _ hnan hg
+        | sparse =>
+            obtain ⟨_, _, hd, hg, _, _, hrows⟩ := copySparse_preserves m b hb
+            refine ⟨?_, hrows⟩
+            rw [hd]
+            by_cases hnan : m.disc = .nan
+            · rcases hn with hs | hne
+              · simp only [discNanSafe, Bool.and_eq_true] at hs
+                rw [hnan] at hg; simp_all
+              · exact absurd hnan hne
+            · exact discountOKfinite_sound _ (discGuard_ok .sparse).1 _ hnan hg
+      obtain ⟨hT, _, hdisc, _, hOm⟩ := copyObs_preserves ko b O om s h
+      refine ⟨by rw [hdisc]; exact hbase.1, ?_, ?_⟩
+      · rw [hT]; intro mm hm row hrow; exact rowP_of_RowS kb (hbase.2 mm hm row hrow)
+      · intro mm hm row hrow
+        have := hOm mm hm row hrow
+        cases ko with
+        | dense => exact this
+        | sparse => exact rowP_of_RowS .sparse this
+
 /-! ## CooperativeModel constructor -/
 
 /-- whatever `Factored::MDP::CooperativeModel(graph, transitions, rewards, discount)` accepts is well formed: non-empty
